@@ -24,23 +24,31 @@ def iterAll (H : Hier) : Nat → Name → M (List Name)
     let lvl := H.level c
     go (lvl.length + (lvl.foldl (fun n x => n + x.jts.length) 0) + 4) [h] [] []
 
+/-- what the view follows from an item: a region continues at its exiting block's targets -/
+def viewTargets (H : Hier) (b : Blk) : M (List Name) :=
+  if b.isRegion then
+    match H.getIn? b.name b.exiting with
+    | none => .error (keyErrorAt "region_view_iterator")
+    | some e => .ok e.jt
+  else .ok b.jt
+
+/-- the FIFO loop of `region_view_iterator` -/
+def viewGo (H : Hier) (c : Name) : Nat → List Name → List Name → List Name → M (List Name)
+  | 0, _, _, _ => .error ⟨"OutOfFuel", "region_view_iterator"⟩
+  | _ + 1, [], _, out => .ok out
+  | g + 1, name :: rest, seen, out =>
+    if mem seen name then viewGo H c g rest seen out
+    else match H.getIn? c name with
+      | none => viewGo H c g rest (name :: seen) out
+      | some b =>
+        match viewTargets H b with
+        | .error e => .error e
+        | .ok ts => viewGo H c g (rest ++ ts) (name :: seen) (out ++ [name])
+
 /-- `region_view_iterator()` on container `c`. -/
 def viewIter (H : Hier) (c : Name) : M (List Name) := do
   let h ← findHead H c
-  let rec go : Nat → List Name → List Name → List Name → M (List Name)
-    | 0, _, _, _ => .error ⟨"OutOfFuel", "region_view_iterator"⟩
-    | _ + 1, [], _, out => .ok out
-    | g + 1, name :: rest, seen, out =>
-      if mem seen name then go g rest seen out
-      else match H.getIn? c name with
-        | none => go g rest (name :: seen) out
-        | some b =>
-          if b.isRegion then
-            match H.getIn? b.name b.exiting with
-            | none => .error (keyErrorAt "region_view_iterator")
-            | some e => go g (rest ++ e.jt) (name :: seen) (out ++ [name])
-          else go g (rest ++ b.jt) (name :: seen) (out ++ [name])
   let lvl := H.level c
-  go (lvl.length + (H.foldl (fun n x => n + x.jts.length) 0) + 4) [h] [] []
+  viewGo H c (lvl.length + (H.foldl (fun n x => n + x.jts.length) 0) + 4) [h] [] []
 
 end Scfg.Model
